@@ -249,13 +249,18 @@ CLAIMED = {
         "target directory, for every archive, every prior tree and every outcome (C06's depth walk lifted through "
         "directory creation, file creation and chmod, incl. the lexical-parent logic); the same for both phases of the "
         "streaming extractor; an unsafe name stops extraction with the invalid-path error before anything is written "
-        "for it.  Correspondence: both extractors run into a sandbox next to a populated canary directory on archives "
+        "for it.  POSITIVE half (C07_plain_archive_reproduced): for every consistent archive of plain entries (files with "
+        "content and optional mode, directories; components non-empty, not '.'/'..', no '/' or NUL; a file's path is "
+        "neither an ancestor of nor equal to another entry's path), of any size and nesting, extraction into an empty target "
+        "succeeds and the target then holds exactly: each file with its bytes and mode = recorded mode & 0o7777, each "
+        "directory entry and every ancestor as a directory, and nothing else; the streaming extractor's file phase builds "
+        "the same tree.  Correspondence: both extractors run into a sandbox next to a populated canary directory on archives "
         "with '..' chains, absolute paths, NUL, backslashes, '.'/empty pieces, duplicates, file/dir conflicts, "
         "symlink-typed entries, deep nesting and arbitrary permission bits; the complete sandbox listing (paths, types, "
         "modes, contents) and the result are compared with the model, and judged by the oracle (canary untouched; for "
         "consistent archives exact tree, contents and recorded permission bits).",
-   note="Trusted: Coq kernel, extraction+driver, harness; the kernel/std::fs are modelled by Spec/Fs.v without symlinks and without permission enforcement (root), validated against the real file system on every case. PARTIAL: the positive tree theorem (C07_tree) is carried by the oracle, not yet proved.",
-   technique="Coq proof (confinement invariant over an abstract file tree) + sandbox-diff correspondence",
+   note="Trusted: Coq kernel, extraction+driver, harness; the kernel/std::fs are modelled by Spec/Fs.v without symlinks and without permission enforcement (root), validated against the real file system on every case. PARTIAL: the positive theorem covers plain names into an empty target (names with '.', empty pieces, backslashes, duplicates of files, a populated target, and the streaming extractor's permission phase are decided per generated archive by the correspondence and the exact-tree oracle); symlinks and permission enforcement are outside the tree model.",
+   technique="Coq proof (confinement invariant and exact-tree theorem over an abstract file tree) + sandbox-diff correspondence",
    design="8 (C07)"),
  "C09": dict(
    text="Machine-checked Coq theorems: a one-step 'streams' characterisation is proved for the source under any plan of "
